@@ -24,7 +24,7 @@ pub fn prop() -> Prop {
                receiver view unchanged; (B) 4 key pairs (2 password-derived, 2 explicit) x own key x trusted set (16 subsets) for both parties = 4096 real handshakes, \
                both complete iff each key is in the other's effective trusted set; (C) node level: 4 victim states x in-context genuine datagrams x bit flips / \
                truncations from the peer's and an unknown address, oracle as in C08. non-trivial = input differs from every genuine message and reached signature or \
-               trust evaluation",
+               trust evaluation. Receivers also include bare InitState machines in stages closing / waiting-to-close / timed out",
         run,
         replay,
     }
